@@ -103,9 +103,15 @@ def find_lexicons(
 ) -> Iterator[_Lexicon]:
     cur = connect().cursor()
     found = False
+    seen: set[int] = set()
     for specifier in lexicon.split():
-        limit = '-1' if '*' in lexicon else '1'
+        order = ''
+        limit = '-1'
         if ':' not in specifier:
+            if '*' not in specifier:
+                # a bare id selects the most recently added lexicon with that id
+                order = 'ORDER BY rowid DESC'
+                limit = '1'
             specifier += ':*'
         query = f'''
             SELECT DISTINCT rowid, id, label, language, email, license,
@@ -113,10 +119,14 @@ def find_lexicons(
               FROM lexicons
              WHERE id || ":" || version GLOB :specifier
                AND (:language ISNULL OR language = :language)
+             {order}
              LIMIT {limit}
         '''
         params = {'specifier': specifier, 'language': lang}
         for row in cur.execute(query, params):
+            if row[0] in seen:
+                continue  # already selected by an earlier specifier
+            seen.add(row[0])
             yield row
             found = True
     # only raise an error when the query specifies something
